@@ -32,6 +32,7 @@ type dnode struct {
 type gdag struct {
 	nodes []*dnode
 	tops  []*dnode
+	big   bool
 }
 
 var travHashes = []hashKind{{mh.SHA2_256, -1}, {mh.SHA2_256, -1}, {mh.SHA2_512, -1}, {mh.SHA1, -1}, {mh.SHA2_256, 20}, {mh.DBL_SHA2_256, -1}}
@@ -68,7 +69,21 @@ func encCbor(n datamodel.Node) []byte {
 	return buf.Bytes()
 }
 
+// boundaryLeaf: a raw block whose section length |cid|+|data| is exactly t
+func boundaryLeaf(r *RNG, t int) *dnode {
+	hk := pick(r, travHashes)
+	cl := mkCid(1, cid.Raw, hk.code, hk.len, nil).ByteLen()
+	d := r.Bytes(t - cl)
+	return &dnode{c: mkCid(1, cid.Raw, hk.code, hk.len, d), data: d}
+}
+
+// section lengths on both sides of every varint width step, and inside the 3-byte range
+var boundaryLens = []int{127, 128, 129, 16383, 16384, 16385, 20000, 32767}
+
 func genLeaf(r *RNG, big bool) *dnode {
+	if big {
+		return boundaryLeaf(r, pick(r, boundaryLens))
+	}
 	switch r.Intn(6) {
 	case 0, 1: // raw
 		d := r.Bytes(leafLen(r, big))
@@ -148,10 +163,10 @@ func genInner(r *RNG, level int, kids []*dnode) *dnode {
 }
 
 func genDag(r *RNG, depth, nTop int, big bool) *gdag {
-	g := &gdag{}
+	g := &gdag{big: big}
 	levels := make([][]*dnode, depth+1)
 	for i, n := 0, 2+r.Intn(4); i < n; i++ {
-		l := genLeaf(r, big)
+		l := genLeaf(r, big && i == 0) // at most one boundary-size leaf per DAG keeps cases small
 		levels[0] = append(levels[0], l)
 		g.nodes = append(g.nodes, l)
 	}
@@ -302,9 +317,27 @@ func genTravOpts(r *RNG, api uint64) travOpts {
 	if api <= 2 {
 		o.chooser = r.Chance(30)
 	}
+	if api <= 2 { // TraverseV1 takes the same options (and must ignore the paddings)
+		// boundary set: around the 4 KiB chunk a padding writer might use, plus one large value
+		o.dpad = pick(r, []uint64{0, 0, 0, 0, 1, 7, 1413, 4095, 4096, 4097, 8192})
+		o.ipad = pick(r, []uint64{0, 0, 0, 0, 1, 512, 4095, 4096, 4097, 8192})
+		if r.Chance(1) { // the hand-made padding matrix always has it; keep random cases small
+			o.dpad = 65536
+		}
+		if r.Chance(1) {
+			o.ipad = 65536
+		}
+	}
+	if api == 1 && r.Chance(6) { // only where the destination is the harness's capped buffer, never a file
+		// paddings no allocation can satisfy: make([]byte, n) panics above 2^48; the data offset still
+		// fits in 64 bits (unlike the wrap-around values below) while the index offset may wrap
+		if r.Bool() {
+			o.dpad = pick(r, []uint64{1<<48 + 1, 1 << 63, ^uint64(0) - 51})
+		} else {
+			o.ipad = pick(r, []uint64{1<<48 + 1, 1 << 63, ^uint64(0) - 99})
+		}
+	}
 	if api == 1 || api == 2 {
-		o.dpad = pick(r, []uint64{0, 0, 0, 1, 7, 1413})
-		o.ipad = pick(r, []uint64{0, 0, 0, 1, 512})
 		o.codec = pick(r, []uint64{0, 0, 0x0400, 0x0401, 0x300000, 0x300000})
 		if r.Chance(3) {
 			o.codec = pick(r, []uint64{0x55, 0x0402, 0x0300}) // unknown index codec
@@ -421,6 +454,69 @@ func fixedCases(c *Ctx) {
 			}
 		}
 	}
+	// every varint width step of the section length in one DAG: root{l0..l7 -> raw leaves whose
+	// |cid|+|data| is 127, 128, 129, 16383, 16384, 16385, 20000, 32767}; thorough adds 2 MiB -1 / +0
+	type bcase struct {
+		lens []int
+		apis []uint64
+	}
+	bcases := []bcase{{boundaryLens, []uint64{0, 1, 2, 3, 4}}}
+	if c.Thorough { // the 4-byte varint step; only where the legacy LdSize / the v2 loader count it
+		bcases = append(bcases, bcase{[]int{2097151, 2097152}, []uint64{0, 3}})
+	}
+	for _, bc := range bcases {
+		var bl []*dnode
+		for i, t := range bc.lens {
+			d := bytes.Repeat([]byte{byte(i + 1)}, t-36)
+			bl = append(bl, &dnode{c: mkCid(1, cid.Raw, mh.SHA2_256, -1, d), data: d})
+		}
+		broot := cborNode(bl...)
+		bstore := []Blk{{broot.c, broot.data}}
+		for _, n := range bl {
+			bstore = append(bstore, Blk{n.c, n.data})
+		}
+		for _, api := range bc.apis {
+			ncbs := [][2]uint64{{1, 1}}
+			if api == 3 && len(bc.lens) > 2 {
+				ncbs = [][2]uint64{{1, 1}, {2, 3}}
+			}
+			for _, nc := range ncbs {
+				tc := &travCase{api: api, roots: []cid.Cid{broot.c}, sel: all, opts: travOpts{dups: api%2 == 0, ncbW: nc[0], ncbD: nc[1]}, store: bstore}
+				emitTrav(c, tc, func(Val) bool { return true })
+				c.Count("fixed:varint-boundary-blocks")
+			}
+		}
+	}
+	// the padding boundary set on every v2 entry point (TraverseV1 must ignore paddings)
+	pads := []uint64{0, 1, 4095, 4096, 4097, 8192, 65536}
+	var tstore []Blk
+	for _, n := range []*dnode{twice, leaf} {
+		tstore = append(tstore, Blk{n.c, n.data})
+	}
+	for _, dp := range pads {
+		for _, ip := range pads {
+			for api := uint64(0); api <= 2; api++ {
+				if api == 0 && dp != ip {
+					continue
+				}
+				codec := uint64(0)
+				if dp == 1 && api == 2 {
+					codec = 0x300000 // no index: the index padding must not be written
+				}
+				tc := &travCase{api: api, roots: []cid.Cid{twice.c}, sel: all, opts: travOpts{dpad: dp, ipad: ip, codec: codec, dups: dp%2 == 0}, store: tstore}
+				emitTrav(c, tc, func(Val) bool { return true })
+				c.Count("fixed:padding-boundaries")
+			}
+		}
+	}
+	// paddings above the allocation limit, with and without an index
+	for _, hp := range [][3]uint64{{1<<48 + 1, 0, 0}, {^uint64(0) - 51, 7, 0}, {0, 1<<48 + 1, 0}, {7, ^uint64(0) - 99, 0x0400}, {0, 1 << 63, 0x300000}} {
+		for api := uint64(1); api <= 1; api++ { // NewSelectiveWriter only: its destination is a capped buffer
+			tc := &travCase{api: api, roots: []cid.Cid{twice.c}, sel: all, opts: travOpts{dpad: hp[0], ipad: hp[1], codec: hp[2]}, store: tstore}
+			emitTrav(c, tc, func(Val) bool { return true })
+			c.Count("fixed:padding-above-alloc-limit")
+		}
+	}
 	_ = r
 }
 
@@ -487,7 +583,14 @@ func init() {
 			if r.Chance(40) {
 				nTop = 2 + r.Intn(2)
 			}
-			g := genDag(r, depth, nTop, c.Thorough && r.Chance(20))
+			bigChance := 3
+			if c.Thorough {
+				bigChance = 8
+			}
+			g := genDag(r, depth, nTop, r.Chance(bigChance))
+			if g.big {
+				c.Count("dag:has-boundary-size-block")
+			}
 			var store []Blk
 			for _, n := range g.nodes {
 				store = append(store, Blk{n.c, n.data})
